@@ -43,7 +43,10 @@ type srvOutcome struct {
 	Conns    []srvConn     `json:"conns"`
 	Returned bool          `json:"run_returned"`
 	RunErr   string        `json:"run_err,omitempty"`
-	RunRetAt time.Duration `json:"run_ret_at_us"` // since the cancel
+	RunRetAt time.Duration `json:"run_ret_at_us"`       // since the cancel
+	SigSet   []int         `json:"sig_set,omitempty"`   // the ShutdownSignals the server ran with (numbers)
+	Sent     []int         `json:"sent,omitempty"`      // signals delivered to this process during the drain, in the order of their first delivery
+	SigAt    time.Duration `json:"sig_at_us,omitempty"` // since the cancel: just before a signal of the configured set was first sent (0: none was)
 	Notes    []string      `json:"notes,omitempty"`
 }
 
@@ -103,6 +106,10 @@ func runServerCase(c *Case) (*srvOutcome, error) {
 	cfg := forwarder.DefaultHTTPServerConfig()
 	cfg.Address = "127.0.0.1:0"
 	cfg.ShutdownTimeout = time.Duration(c.TimeoutMs) * time.Millisecond
+	if set, ok := c.sigCfg(); ok {
+		cfg.ShutdownSignals = osSignals(set) // the signal matrix: the case's set, possibly empty
+	}
+	out.SigSet = signalNumbers(cfg.ShutdownSignals)
 	hs, err := forwarder.NewHTTPServer(cfg, h, log.NopLogger)
 	if err != nil {
 		return nil, fmt.Errorf("api server start: %w", err)
@@ -253,6 +260,25 @@ func runServerCase(c *Case) (*srvOutcome, error) {
 	t0 = time.Now()
 	close(cancelled)
 	cancel()
+	clientsDone := make(chan struct{})
+	go func() { wg.Wait(); close(clientsDone) }()
+	var sigDone chan struct{}
+	if steps := c.deliveries(); len(steps) > 0 {
+		// signals to this process while the server drains; they stop once every client has seen the end of its exchange
+		sigDone = make(chan struct{})
+		var mu sync.Mutex
+		go func() {
+			defer close(sigDone)
+			deliverSignals(steps, out.SigSet, clientsDone, func(sig int) {
+				mu.Lock()
+				defer mu.Unlock()
+				out.Sent = append(out.Sent, sig)
+				if hasInt(out.SigSet, sig) && out.SigAt == 0 {
+					out.SigAt = time.Since(t0) + 1
+				}
+			})
+		}()
+	}
 	limit := time.Duration(c.TimeoutMs)*time.Millisecond + 8*time.Second
 	if c.TimeoutMs == 0 {
 		limit = 30 * time.Second
@@ -268,12 +294,16 @@ func runServerCase(c *Case) (*srvOutcome, error) {
 		out.Notes = append(out.Notes, fmt.Sprintf("Run did not return within %v of the cancellation", limit))
 	}
 	close(runReturned)
-	done := make(chan struct{})
-	go func() { wg.Wait(); close(done) }()
 	select {
-	case <-done:
+	case <-clientsDone:
 	case <-time.After(limit + 30*time.Second):
 		out.Notes = append(out.Notes, "client scripts did not finish")
+	}
+	if sigDone != nil {
+		select {
+		case <-sigDone: // no signal of this case may reach the next one
+		case <-time.After(25 * time.Second):
+		}
 	}
 	close(finished)
 	return out, nil
@@ -286,6 +316,9 @@ func evaluateServer(ctx *core.Ctx, c *Case, out *srvOutcome) {
 	impl := fmt.Sprintf("forwarder.HTTPServer, shutdown timeout %v (%s)", timeout, c.Matrix)
 	for _, n := range out.Notes {
 		ctx.SpecFail("harness observation: "+noteClause(n), "", doc, impl, n)
+	}
+	if c.SigCase {
+		ctx.Count("runend/signals/s/" + c.sigLabel() + "/ended-by-" + c.End)
 	}
 	for k, o := range out.Conns {
 		switch o.Phase {
@@ -303,10 +336,17 @@ func evaluateServer(ctx *core.Ctx, c *Case, out *srvOutcome) {
 				}
 			case c.TimeoutMs > 0 && o.EndAt >= timeout:
 				ctx.Count("rig/s/in-flight/" + c.Matrix + "/cut-after-deadline") // the excused path
+			case out.SigAt > 0 && o.EndAt >= out.SigAt:
+				ctx.Count("rig/s/in-flight/" + c.Matrix + "/cut-after-configured-signal") // the other excused path: a second shutdown signal
+				if o.EndAt > out.SigAt+8*time.Second {
+					ctx.SpecFail("Shutdown otherwise returns the context's error", "", doc, impl,
+						fmt.Sprintf("API server conn %d (%s): a signal of the configured set %v was sent %v after the cancel (and every 25 ms from then on); the exchange was cut only %v after that",
+							k, o.Phase, out.SigSet, out.SigAt, o.EndAt-out.SigAt))
+				}
 			default:
 				ctx.SpecFail("exchange-at-origin-before-shutdown-did-not-complete", "", doc, impl,
-					fmt.Sprintf("API server conn %d (%s): handler entered before the cancel; the response was cut %v after the cancel (status %d, %d of %d body bytes, %s) although the shutdown timeout is %s",
-						k, o.Phase, o.EndAt, o.Status, o.Got, o.Want, o.Err, timeoutText(c)))
+					fmt.Sprintf("API server conn %d (%s): handler entered before the cancel; the response was cut %v after the cancel (status %d, %d of %d body bytes, %s) although the shutdown timeout is %s%s",
+						k, o.Phase, o.EndAt, o.Status, o.Got, o.Want, o.Err, timeoutText(c), sigText(out)))
 			}
 			if out.Returned && o.EndAt > out.RunRetAt {
 				// HTTPServer.Run returns as soon as Serve does (http.ErrServerClosed), not waiting for its own
@@ -331,6 +371,57 @@ func evaluateServer(ctx *core.Ctx, c *Case, out *srvOutcome) {
 			}
 		}
 	}
+}
+
+// sigText: what the case did with signals, for the detail of a finding.
+func sigText(out *srvOutcome) string {
+	if len(out.Sent) == 0 {
+		return ""
+	}
+	if out.SigAt > 0 {
+		return fmt.Sprintf(" and no signal of the configured set %v had been sent before (delivered: %v, the first configured one %v after the cancel)", out.SigSet, out.Sent, out.SigAt)
+	}
+	return fmt.Sprintf(" and none of the signals delivered to the process during the drain (%v) is in the configured set ShutdownSignals = %v", out.Sent, out.SigSet)
+}
+
+// genServerSig: the i-th case of the signal matrix for the API server (rig s): same shutdownContext, same sets.
+func genServerSig(r *core.Rand, i int) *Case {
+	cells := []int{0, 1, 2, 3, 4, 5, 7, 8, 12, 13}
+	m := sigMatrix[cells[i%len(cells)]]
+	c := &Case{Kind: "s", Op: "shutdown", Trigger: "ready", Matrix: "long", Family: "runend", SigCase: true, Signals: m.cfg,
+		TimeoutMs: r.Range(20000, 30000), DelayUs: core.Pick(r, []int{0, 0, 1000, 20000})}
+	at := r.Range(60, 200)
+	for _, s := range m.unconf {
+		c.Deliver = append(c.Deliver, SigStep{Sig: s, AtMs: at})
+		at += r.Range(0, 60)
+	}
+	delay := r.Range(700, 1300) // outlasts the first deliveries by far; completes
+	if len(m.conf) > 0 {
+		c.End = "signal"
+		c.SignalMs = r.Range(80, 400)
+		if len(m.unconf) > 0 {
+			c.SignalMs = at + r.Range(300, 500)
+		}
+		for j, s := range m.conf {
+			c.Deliver = append(c.Deliver, SigStep{Sig: s, AtMs: c.SignalMs + 30*j})
+		}
+		delay = 2*c.SignalMs + 6000 // still in flight when the configured signal comes: cut then, not before
+	} else {
+		c.End = "drain"
+	}
+	works := [][]string{{"origin"}, {"origin", "origin"}, {"origin", "slowread"}}
+	for _, w := range works[(i/2)%len(works)] {
+		s := ConnScript{Phase: w}
+		if w == "origin" {
+			s.DelayMs = delay
+		} else {
+			s.BodyKB = 8192
+			s.PauseMs = r.Range(8, 12)
+		}
+		c.Conns = append(c.Conns, s)
+	}
+	c.Conns = append(c.Conns, ConnScript{Phase: "idle", After: "send"}, ConnScript{Phase: "late"})
+	return c
 }
 
 func timeoutText(c *Case) string {
